@@ -34,7 +34,7 @@ SPECIALS = [" ", "  ", "%s", "%d", "%(x)s", "{}", "{0}", "\\", "\\n", "\"", "'",
             ":", "@", "/", "..", "PASS ", "pass", "230", "%", "%%"]
 SCENARIOS = ["client_ok", "client_bad", "raw_PASS_ok", "raw_pass_ok", "raw_PaSs_bad", "raw_out_of_sequence", "raw_relogin",
              "raw_user_limit", "raw_server_limit", "raw_errors_after_login", "raw_cut_in_pass", "client_ok_ops", "raw_slow_manager",
-             "raw_failing_manager", "raw_close_while_logged_in"]
+             "raw_failing_manager", "raw_close_while_logged_in", "client_timeout_in_pass", "raw_latin1_pass"]
 
 
 def gen_password(rng):
@@ -75,17 +75,17 @@ async def scenario(net, hyg, name, password):
     stored = password if not name.endswith("_bad") else password + "X"
     users = [aioftp.User("alice", stored, base_path="/", **({"maximum_connections": 1} if name == "raw_user_limit" else {})),
              aioftp.User("bob", None, base_path="/")]
-    if name in ("raw_slow_manager", "raw_failing_manager"):
+    if name in ("raw_slow_manager", "raw_failing_manager", "client_timeout_in_pass"):
         # a user manager of the documented kind: get_user/authenticate decorated with with_timeout, timeout from the base class
         class Manager(aioftp.MemoryUserManager):
             @aioftp.with_timeout
             async def authenticate(self, user, password):
-                if name == "raw_slow_manager":
+                if name in ("raw_slow_manager", "client_timeout_in_pass"):
                     await asyncio.sleep(1.0)
                 else:
                     raise RuntimeError("directory service unreachable")
                 return await super().authenticate(user, password)
-        users = Manager(users, timeout=0.2)
+        users = Manager(users, timeout=0.2 if name != "client_timeout_in_pass" else 5)
     w = W.World(net, users=users, **({"maximum_connections": 1} if name == "raw_server_limit" else {}))
     await w.start()
     outcome = []
@@ -135,6 +135,29 @@ async def scenario(net, hyg, name, password):
             outcome.append((await p.cmd("MKD /x")).code)
             outcome.append((await p.cmd("FOO bar")).code)
             p.send_raw(b"CWD \xff\xfe\r\n") if hasattr(p, "send_raw") else p.writer.write(b"CWD \xff\xfe\r\n")
+            r = await p.read_reply(wait=2)
+            outcome.append(r.code if r not in (None, "EOF") else str(r))
+            p.cut("fin")
+        elif name == "client_timeout_in_pass":
+            # the client's own socket_timeout expires while it waits for the answer to PASS
+            c = aioftp.Client(path_io_factory=aioftp.MemoryPathIO, socket_timeout=0.3)
+            await c.connect("127.0.0.1", 2121)
+            try:
+                await c.login("alice", password)
+                outcome.append("ok")
+            except (asyncio.TimeoutError, aioftp.StatusCodeError, ConnectionError) as e:
+                outcome.append(type(e).__name__)
+            c.close()
+        elif name == "raw_latin1_pass":
+            # the peer encodes its lines with another codec than the server's
+            p = RawPeer(net, 2121)
+            await p.connect()
+            outcome.append((await p.cmd("USER alice")).code)
+            try:
+                raw = password.encode("latin-1")
+            except UnicodeEncodeError:
+                raw = password.encode("utf-16-le")
+            p.writer.write(b"PASS " + raw + b"\r\n")
             r = await p.read_reply(wait=2)
             outcome.append(r.code if r not in (None, "EOF") else str(r))
             p.cut("fin")
@@ -276,7 +299,7 @@ def gen_cases(tier, seed):
     rng = random.Random(seed * 37 + 1)
     n = 64 if tier == "quick" else 6000
     pws = ["secret", "s3cr3t pass", " leading", "a", "ab", "%s%s%s", "%(x)s", "{}{}", "back\\slash", "пароль1", "pa ss  wo rd", "***", "****",
-           "PASS secret2", "x" * 64, "trailing ", "two blanks  ", " both ends ", "tab\tin\tside", "end-tab\t"]
+           "PASS secret2", "x" * 64, "sésame-ouvre-toi", "naïve pass", "ÿ-Größe", "trailing ", "two blanks  ", " both ends ", "tab\tin\tside", "end-tab\t"]
     while len(pws) < n:
         pws.append(gen_password(rng))
     per = 4
